@@ -381,4 +381,70 @@ example : recompose (resolveSpec base54 [0x67,0x2F,0x2E]) =
 /-- the witness of the open finding F15 is in its class -/
 example : Findings.f15 [0x73,0x3A,0x2F,0x2F,0x68,0x2F] [0x2E,0x2F,0x2F,0x61] = true := by decide
 
+/-- **every case the evidence counts under a theorem**: whenever the classifier the driver runs on
+each generated pair (`Model.resolveCls`) names a covered case, the model of `resolve` returns the
+recomposition of the RFC 3986 §5.2.2 target -/
+theorem resolve_classified (G : Grammar) (ok : Grammar.Ok G) (okp : Grammar.OkPath G) (base r : Text)
+    (hb : RE.Matches G.full base) (hr : RE.Matches G.reference r)
+    (hc : (Model.resolveCls base r).covered = true) :
+    Model.Ref.resolve r base = some (recompose (resolveSpec base r)) := by
+  cases hRa : (split r).authority with
+  | some a => exact resolve_with_authority G ok okp base r a hb hr hRa
+  | none =>
+    cases hRs : (split r).scheme with
+    | some s =>
+      by_cases hns : Lemmas.needsShield false false (split r).path = true
+      · simp [Model.resolveCls, hRa, hRs, hns, Model.ResCls.covered] at hc
+      · exact resolve_scheme_no_authority G ok base r s hr hRs hRa (by simpa using hns)
+    | none =>
+      by_cases hp : (split r).path = []
+      · exact resolve_empty_path G ok base r hb hr hRs hRa hp
+      · have hpe : (split r).path.isEmpty = false := by cases h : (split r).path <;> simp_all
+        by_cases habs : isAbs (split r).path = true
+        · cases hBa : (split base).authority with
+          | some ab => exact resolve_absolute G ok okp base r ab hb hr hRs hRa habs hBa
+          | none =>
+            by_cases hns : Lemmas.needsShield false false (split r).path = true
+            · simp [Model.resolveCls, hRa, hRs, hpe, habs, hBa, hns, Model.ResCls.covered] at hc
+            · exact resolve_absolute_no_authority G ok okp base r hb hr hRs hRa habs hBa (by simpa using hns)
+        · have hrl : isAbs (split r).path = false := by simpa using habs
+          by_cases hf : Findings.f15 base r = true
+          · simp [Model.resolveCls, hRa, hRs, hpe, hrl, hf, Model.ResCls.covered] at hc
+          · have hf' : Findings.f15 base r = false := by simpa using hf
+            cases hBa : (split base).authority with
+            | some ab => exact resolve_relative_authority G ok okp base r ab hb hr hRs hRa hp hrl hBa hf'
+            | none =>
+              by_cases hBabs : isAbs (split base).path = true
+              · by_cases hss : Lemmas.startsSS (resolveSpec base r).path = true
+                · simp [Model.resolveCls, hRa, hRs, hpe, hrl, hf', hBa, hBabs, hss, Model.ResCls.covered] at hc
+                · exact resolve_relative_noauthority G ok okp base r hb hr hRs hRa hp hrl hBa hBabs hf' (by simpa using hss)
+              · have hBrel : isAbs (split base).path = false := by simpa using hBabs
+                by_cases hamb : isAbs (resolveSpec base r).path = true
+                · simp [Model.resolveCls, hRa, hRs, hpe, hrl, hf', hBa, hBrel, hamb, Model.ResCls.covered] at hc
+                · exact resolve_relative_relbase G ok okp base r hb hr hRs hRa hp hrl hBa hBrel hf' (by simpa using hamb)
+
+/-- end to end: accepted values of either family on a covered case -/
+theorem uri_resolve_classified (base r : Text) (hb8 : ∀ c ∈ base, c < 256) (hr8 : ∀ c ∈ r, c < 256)
+    (hb : accepts .uri base = true) (hr : accepts .uriRef r = true)
+    (hc : (Model.resolveCls base r).covered = true) :
+    Model.Ref.resolve r base = some (recompose (resolveSpec base r)) :=
+  resolve_classified uriG uriG_ok uriG_okPath base r (Valid.uri_octets base hb8 hb) (Valid.uriRef_octets r hr8 hr) hc
+
+theorem iri_resolve_classified (base r : Text) (hb8 : ∀ c ∈ base, c < 256) (hr8 : ∀ c ∈ r, c < 256)
+    (hb : accepts .iri base = true) (hr : accepts .iriRef r = true)
+    (hc : (Model.resolveCls base r).covered = true) :
+    Model.Ref.resolve r base = some (recompose (resolveSpec base r)) :=
+  resolve_classified iriGB iriGB_ok iriGB_okPath base r (Valid.iri_octets base hb8 hb) (Valid.iriRef_octets r hr8 hr) hc
+
+/-- non-vacuity: one pair per covered case -/
+example : (Model.resolveCls base54' [0x2E,0x2E,0x2F,0x67]).covered = true ∧
+    Model.resolveCls base54' [0x2E,0x2E,0x2F,0x67] = .mergeAuthority ∧
+    Model.resolveCls base54' [0x2F,0x2F,0x67] = .withAuthority ∧
+    Model.resolveCls base54' [0x67,0x3A,0x68] = .withScheme ∧
+    Model.resolveCls base54' [0x3F,0x79] = .emptyPath ∧
+    Model.resolveCls base54' [0x2F,0x67] = .absolutePath ∧
+    Model.resolveCls [0x73,0x3A,0x2F,0x61] [0x2F,0x67] = .absolutePathNoauth ∧
+    Model.resolveCls [0x73,0x3A,0x2F,0x61,0x2F,0x62] [0x67] = .mergeNoauthAbsolute ∧
+    Model.resolveCls [0x73,0x3A,0x61,0x2F,0x62] [0x67] = .mergeRelativeBase := by decide
+
 end IrefVerif.Props.C06
